@@ -478,6 +478,16 @@ var corpus = func() []directive {
 		}
 		out = append(out, directive{name: "first-new-" + kind + "-block-ahead", bTip: 4, ahead: 2, kind: kind, pos: "first-new", bs: 2, length: 5})
 	}
+	// block store ahead of the filter store (the state of a node still syncing filter headers, and the state a crash
+	// between a batch's two writes leaves): honest file from height 0 ending below the block tip, at it, above it
+	for _, ahead := range []int{1, 5} {
+		for _, bs := range []int{1, 2, 1000} {
+			for _, length := range []int{max(1, ahead-2), ahead, ahead + 3} {
+				out = append(out, directive{name: fmt.Sprintf("block-ahead-%d-honest", ahead), bTip: 8, ahead: ahead,
+					kind: "honest", bs: bs, length: length})
+			}
+		}
+	}
 	return out
 }()
 
